@@ -42,7 +42,8 @@ def rand_pipe(rng, keep_only):
 
 class C14(Spec):
     pid = "C14"
-    groups = ["vansi"]
+    groups = ["vansi", "vpub"]
+    no_compare_ops = ("item",)
     title = "Styling applies to exactly the intended characters and never leaks"
     oracle_filter = {"style_compose", "neutral", "layout_attrs_ok", "wf_out", "equals_model"}
     rule = ("style terms: Plain | Styled f | Cat nested to depth 5 over the 8 style functions (bold, strikethrough, underline, "
@@ -71,7 +72,19 @@ class C14(Spec):
         return cases
 
     def batches(self, rng, tier):
-        return [Batch("c14", self.gen(rng, 1500 if tier == "quick" else 60000), correspondence="style.* / ansi layout == Style.v / Ansi.v")]
+        # item level: full texts and previews (snipped at line boundaries) of posts and profiles with styled bodies, titles,
+        # authors and attachments must be attribute-neutral at every line break
+        import asgen
+        import c06
+        items = []
+        for _ in range(300 if tier == "quick" else 20000):
+            ctor = rng.choice((0, 0, 1, 2, 3))
+            doc = (asgen.post, asgen.actor, asgen.activity, asgen.collection)[ctor](rng, 2, 0.05)
+            ws = [rng.choice((80, 30, 12, 5))]
+            items.append(c06.itemx_case(doc, ctor, ws, [1]) if ctor in (0, 1) else c06.item_case(doc, ctor, ws, [1]))
+        return [Batch("c14", self.gen(rng, 1500 if tier == "quick" else 60000), correspondence="style.* / ansi layout == Style.v / Ansi.v"),
+                Batch("c14-items", items, env={"VERIF_CASE_TIMEOUT": "20"},
+                      correspondence="Post/Actor String, Preview == Pub model; every Tangible's texts are neutral")]
 
     def search_batches(self, rng, tier):
         return [Batch("c14-search", self.gen(rng, 8000))]
